@@ -241,6 +241,7 @@ type stateCtx struct {
 	b2Root  string          // reference state root after b and b2
 	cv2     *chainView      // what the predicate knows about the state after b
 	vals2   keys.PublicKeys // validators of the height of b2
+	ph      map[string]*poolHist
 	bRoot   string // reference state root after b (replica that only ever saw b)
 
 	sp        map[string]*transaction.Transaction // special transactions, see buildSpecials
@@ -415,6 +416,7 @@ func buildState(sc *chainx.Scenario, h []int, md mode) (c *stateCtx, err error) 
 		return nil, err
 	}
 	c.b2Root = sr.Root.StringLE()
+	c.buildPoolHist()
 	// features (for the coverage report and the choice of quick states)
 	idx := c.b.Index
 	if n.Opts.Multi {
@@ -570,7 +572,9 @@ func (c *stateCtx) buildSpecials(n *chainx.Node, tip uint32) error {
 
 // prepare builds a fresh replica at state S (history replayed from wire bytes,
 // mode applied).
-func (c *stateCtx) prepare() (*chainx.Node, error) {
+func (c *stateCtx) prepare() (*chainx.Node, error) { return c.prepareWith(c.mode) }
+
+func (c *stateCtx) prepareWith(md mode) (*chainx.Node, error) {
 	t0 := time.Now()
 	n, err := chainx.New(c.fam.Opts())
 	tNew.Add(int(time.Since(t0).Microseconds()))
@@ -586,9 +590,9 @@ func (c *stateCtx) prepare() (*chainx.Node, error) {
 			return nil, fmt.Errorf("replay block %d: %w", i+1, err)
 		}
 	}
-	switch c.mode.Pool {
+	switch md.Pool {
 	case "own", "bystander":
-		if c.mode.Pool == "own" {
+		if md.Pool == "own" {
 			for _, t := range c.b.Transactions {
 				if err := n.BC.PoolTx(retx(t)); err != nil {
 					n.Close()
@@ -601,7 +605,7 @@ func (c *stateCtx) prepare() (*chainx.Node, error) {
 			return nil, fmt.Errorf("pool bystander: %w", err)
 		}
 	}
-	if c.mode.HdrKnown {
+	if md.HdrKnown {
 		hb, err := chainx.DecodeBlock(c.bBytes, c.fam.SRIH)
 		if err == nil {
 			err = n.BC.AddHeaders(&hb.Header)
@@ -611,7 +615,7 @@ func (c *stateCtx) prepare() (*chainx.Node, error) {
 			return nil, fmt.Errorf("make header known: %w", err)
 		}
 	}
-	if c.mode.Flushed {
+	if md.Flushed {
 		if err := n.Persist(); err != nil {
 			n.Close()
 			return nil, err
